@@ -27,11 +27,17 @@ type RoundCfg struct {
 	RequireLag bool
 	DropOnly   bool
 	LagRounds  int // lags start only in rounds < LagRounds (0 = any)
+	// StaleReturn: additionally offer lags after which the returning validator's first event sees the other
+	// validators as they were 2 or 4 rounds earlier (a node that was offline comes back with stale knowledge
+	// and references old, possibly already decided, events)
+	StaleReturn bool
+	// DeadFork: additionally offer fork events nobody ever references
+	DeadFork bool
 }
 
 type slotDev struct {
 	r, v int
-	opt  int // 1..n-1: drop the parent of the k-th other validator; n: see same-round lower validators; n+1: no other parents; n+2: skip; >= 100: lag of length opt-100
+	opt  int // 1..n-1: drop the parent of the k-th other validator; n: see same-round lower validators; n+1: no other parents; n+2: skip; 100+L: lag of length L; 1000+10*L+age: lag of length L with a view that is age rounds old at the return
 }
 
 // BuildRounds constructs the DAG for a deviation list; forkAt >= 0 inserts a fork event after slot forkAt.
@@ -45,6 +51,12 @@ func BuildRounds(cfg RoundCfg, devs []slotDev, forkSlot int, forkVariant int) *l
 		tip[i], prevTip[i], prev2[i] = -1, -1, -1
 	}
 	absentUntil := make([]int, n)
+	staleAt := make([]int, n) // round at which v returns with a stale view (-1 none)
+	staleAge := make([]int, n)
+	for i := range staleAt {
+		staleAt[i] = -1
+	}
+	var tipHist [][]int // tips at the end of every round
 	forkEv, forkBy, forkRound := -1, -1, -1
 	devAt := map[[2]int]int{}
 	for _, dv := range devs {
@@ -79,7 +91,11 @@ func BuildRounds(cfg RoundCfg, devs []slotDev, forkSlot int, forkVariant int) *l
 	for r := 0; r < cfg.R; r++ {
 		for v := 0; v < n; v++ {
 			opt := devAt[[2]int{r, v}]
-			if opt >= 100 {
+			if opt >= 1000 {
+				l, age := (opt-1000)/10, (opt-1000)%10
+				absentUntil[v] = r + l
+				staleAt[v], staleAge[v] = r+l, age
+			} else if opt >= 100 {
 				absentUntil[v] = r + (opt - 100)
 			}
 			thisSlot := slot
@@ -98,6 +114,16 @@ func BuildRounds(cfg RoundCfg, devs []slotDev, forkSlot int, forkVariant int) *l
 					continue
 				}
 				p := prevTip[u]
+				if staleAt[v] == r {
+					p = -1
+					if h := r - 1 - staleAge[v]; h >= 0 && h < len(tipHist) {
+						p = tipHist[h][u]
+					}
+					if p >= 0 {
+						others = append(others, p)
+					}
+					continue
+				}
 				if (opt == n || cfg.Sequential) && u < v && tip[u] >= 0 {
 					p = tip[u]
 				}
@@ -134,6 +160,7 @@ func BuildRounds(cfg RoundCfg, devs []slotDev, forkSlot int, forkVariant int) *l
 			}
 		}
 		copy(prevTip, tip)
+		tipHist = append(tipHist, append([]int{}, tip...))
 	}
 	d.AssignFrames()
 	return d
@@ -149,6 +176,9 @@ func GenRounds(cfg RoundCfg, mine func(i int) bool, visit func(d *lref.DAG, desc
 	if cfg.Lags {
 		for l := 2; l <= cfg.MaxLag; l++ {
 			opts = append(opts, 100+l)
+			if cfg.StaleReturn {
+				opts = append(opts, 1000+10*l+2, 1000+10*l+4)
+			}
 		}
 	}
 	total := 0
@@ -177,6 +207,9 @@ func GenRounds(cfg RoundCfg, mine func(i int) bool, visit func(d *lref.DAG, desc
 			if fs >= 0 {
 				v := fs % n
 				variants = nil
+				if cfg.DeadFork {
+					variants = append(variants, 0)
+				}
 				for m := 1; m < 1<<uint(n); m++ {
 					// adopters of the fork branch: single validators, and all-but-one (excluding the forker)
 					if m&(1<<uint(v)) != 0 {
